@@ -26,11 +26,13 @@ ASSUMPTIONS = [
     "item lists have distinct item ids (as produced by LensKit pipelines)",
     "scores and ratings are finite or NaN",
 ]
-RULE = ("structured generator: 1-7 output lists (keys of 1-2 fields, duplicates allowed), test collection keyed by the same or a "
-        "projected key schema, per-item scores/ratings in quarter steps with NaN and absent items on either side, 1-5 metrics "
-        "(RMSE/MAE with each missing-data disposition, plain function, decomposed-only, global-only) with optional labels and "
-        "defaults; non-trivial = at least two lists with test data, at least one ignored pair or absent test list, and a "
-        "prediction metric present; distinct = by hash of the case")
+RULE = ("structured generator: 1-7 output lists (keys of 1-3 fields in arbitrary, mostly unsorted order, duplicates allowed), "
+        "test collection keyed by the same or a projected key schema, per-item scores/ratings in quarter steps with NaN and "
+        "absent items on either side and on BOTH sides (NaN score with absent / NaN rating, under every disposition pair), 1-5 "
+        "metrics (RMSE/MAE with each missing-data disposition, plain function, decomposed-only, global-only) with optional labels "
+        "and defaults; the result frames are read key by key (index tuples), ungrouped and grouped summaries; non-trivial = at "
+        "least two lists with test data, at least one ignored pair or absent test list, and a prediction metric present; "
+        "distinct = by hash of the case")
 
 TOL = "tol64"
 
@@ -58,17 +60,19 @@ def gen_value(rng, nan_odds):
 
 
 def gen_case(rng, malformed=False):
-    nof = rng.weighted([(1, 5), (2, 4)])
-    ofields = FIELDS[:nof] if rng.chance(3, 4) else rng.shuffle(FIELDS)[:nof]
-    if malformed and rng.chance(1, 2):
+    nof = rng.weighted([(1, 4), (2, 4), (3, 2)])
+    ofields = FIELDS[:nof] if rng.chance(1, 2) else rng.shuffle(FIELDS)[:nof]
+    if malformed and nof < 3 and rng.chance(1, 2):
         tfields = [rng.choice([f for f in FIELDS if f not in ofields])]
-    elif nof == 2 and rng.chance(1, 2):
-        tfields = [rng.choice(ofields)]
+    elif nof >= 2 and rng.chance(1, 2):
+        tfields = rng.shuffle(ofields)[:rng.randint(1, nof - 1)]     # a proper projection, fields in any order
     else:
         tfields = list(ofields) if rng.chance(2, 3) else rng.shuffle(ofields)
     nlists = rng.weighted([(1, 1), (2, 2), (3, 3), (4, 3), (5, 2), (7, 1)])
-    style = rng.weighted([("clean", 3), ("ignore-heavy", 5), ("sparse", 2)])
-    nan_odds = {"clean": 0, "ignore-heavy": 3, "sparse": 5}[style]
+    # "paired": every item has both values or NEITHER (NaN score with an absent or NaN rating, a NaN rating of an
+    # unscored item): nothing is missing on one side, so no disposition pair may raise and no such item is counted
+    style = rng.weighted([("clean", 3), ("ignore-heavy", 5), ("sparse", 2), ("paired", 3)])
+    nan_odds = {"clean": 0, "ignore-heavy": 3, "sparse": 5, "paired": 4}[style]
     outputs, test = [], []
     keyvals = list(range(1, 5))
     for _ in range(nlists):
@@ -76,6 +80,9 @@ def gen_case(rng, malformed=False):
         n = rng.weighted([(0, 1), (1, 2), (2, 2), (3, 3), (5, 2)])
         ids = rng.sample(list(range(10, 22)), n)
         outputs.append({"key": key, "items": [[i, gen_value(rng, nan_odds)] for i in ids]})
+    if len(outputs) > 1 and rng.chance(1, 6):
+        # ascending / descending key order are orders too
+        outputs.sort(key=lambda o: o["key"], reverse=rng.chance(1, 2))
     # test lists for most projected keys
     seen = set()
     for o in outputs:
@@ -89,6 +96,18 @@ def gen_case(rng, malformed=False):
             continue  # no test data for this output
         seen.add(pk)
         out_ids = [i for i, _ in o["items"]]
+        if style == "paired":
+            items = []
+            for i, sv in o["items"]:
+                if sv is not None:
+                    items.append([i, gen_value(rng, 0)])
+                elif rng.chance(1, 2):
+                    items.append([i, None])                      # NaN score, NaN rating
+                # else: NaN score, no rating at all
+            for i in rng.sample([i for i in range(22, 28)], rng.randint(0, 2)):
+                items.append([i, None])                          # unscored item whose rating is NaN
+            test.append({"key": list(pk), "items": items if rng.chance(1, 2) else rng.shuffle(items)})
+            continue
         if style == "clean":
             ids = list(out_ids)
             keep_order = rng.chance(1, 2)
@@ -100,13 +119,12 @@ def gen_case(rng, malformed=False):
         test.append({"key": [9 for _ in tfields], "items": [[10, "3/1"]]})
     metrics = []
     nm = rng.randint(1, 5)
-    kinds = ["rmse", "mae", "fun", "deconly", "global"]
     for j in range(nm):
         kind = rng.weighted([("rmse", 4), ("mae", 4), ("fun", 2), ("deconly", 1), ("global", 1)])
-        if style == "clean" and not malformed:
+        if style in ("clean", "paired") or malformed:
             ms, mt = rng.choice(["error", "ignore"]), rng.choice(["error", "ignore"])
-        elif malformed:
-            ms, mt = rng.choice(["error", "ignore"]), rng.choice(["error", "ignore"])
+            if style == "paired" and rng.chance(1, 2):
+                ms, mt = "error", "error"                         # the default policy
         else:
             ms, mt = "ignore", "ignore"
         metrics.append({
@@ -131,6 +149,7 @@ def gen_case(rng, malformed=False):
     return {"ofields": ofields, "tfields": tfields, "outputs": outputs, "test": test, "metrics": metrics,
             "prelude": prelude,
             "dtype": rng.choice(["f8", "f4"]),
+            "group_by": rng.choice(ofields) if rng.chance(1, 2) else None,
             "style": style + ("/malformed" if malformed else "")}
 
 
@@ -208,6 +227,29 @@ def _num(x):
     return fjson(frac_of_float(x))
 
 
+def _index(df):
+    """index tuples of a result frame as lists of ints (one per key field), in frame order"""
+    return [[int(x) for x in (k if isinstance(k, tuple) else (k,))] for k in df.index.tolist()]
+
+
+def by_output(case, index, rows):
+    """rows of a result frame re-ordered to the order of the case's output lists, matched by KEY (the k-th list
+    stored under a key takes the k-th frame row reported under that key); None when the frame's keys are not
+    exactly the output keys"""
+    if len(index) != len(rows):
+        return None
+    pools: dict = {}
+    for k, r in zip(index, rows):
+        pools.setdefault(tuple(k), []).append(r)
+    out = []
+    for o in case["outputs"]:
+        q = pools.get(tuple(o["key"]))
+        if not q:
+            return None
+        out.append(q.pop(0))
+    return None if any(pools.values()) else out
+
+
 def run_impl(case):
     _setup()
     outs = ItemListCollection.empty(case["ofields"])
@@ -248,12 +290,19 @@ def run_impl(case):
     obs["error"] = 0
     obs["inputs_unchanged"] = before == (_snapshot(outs, "score"), _snapshot(tst, "rating"))
     res2 = ra.measure(outs, tst)   # a second reading of the same lists must give the same table
-    a1, a2 = raw.to_numpy(dtype=float), res2.list_metrics(fill_missing=False).to_numpy(dtype=float)
+    raw2 = res2.list_metrics(fill_missing=False)
+    a1, a2 = raw.to_numpy(dtype=float), raw2.to_numpy(dtype=float)
     g1, g2 = res.global_metrics().to_numpy(dtype=float), res2.global_metrics().to_numpy(dtype=float)
     obs["second_measure_equal"] = bool(a1.shape == a2.shape and np.array_equal(a1, a2, equal_nan=True)
-                                       and g1.shape == g2.shape and np.array_equal(g1, g2, equal_nan=True))
+                                       and g1.shape == g2.shape and np.array_equal(g1, g2, equal_nan=True)
+                                       and _index(raw) == _index(raw2))
     obs["columns"] = list(raw.columns)
+    # the frames as they are: index tuples (the output keys the rows are reported under) and rows, in frame order;
+    # the oracle and the Coq term match them with the output lists KEY BY KEY, never by position alone
+    obs["index_names"] = [None if x is None else str(x) for x in raw.index.names]
+    obs["index"] = _index(raw)
     obs["raw"] = [[_num(v) for v in row] for row in raw.to_numpy(dtype=float).tolist()]
+    obs["filled_index"] = _index(filled)
     obs["filled"] = [[_num(v) for v in row] for row in filled.to_numpy(dtype=float).tolist()]
     g = res.global_metrics()
     obs["global_labels"] = list(g.index)
@@ -263,6 +312,13 @@ def run_impl(case):
         obs["summary_cols"] = list(s.columns)
         obs["summary"] = [[_num(v) for v in row] for row in s.to_numpy(dtype=float).tolist()]
         obs["summary_index"] = list(s.index)
+        gb = case.get("group_by")
+        if gb is not None:
+            # summary per value of one key field: [key value, metric label] -> statistics
+            gs = res.list_summary(gb)
+            obs["grouped_cols"] = list(gs.columns)
+            obs["grouped"] = [[int(ix[0]), str(ix[1]), [_num(v) for v in row]]
+                              for ix, row in zip(gs.index.tolist(), gs.to_numpy(dtype=float).tolist())]
     else:
         obs["summary"], obs["summary_cols"], obs["summary_index"] = [], [], []
     # the metric's own per-list values, for the oracle
@@ -319,10 +375,15 @@ def coq_term(case, obs):
     of = clist([fid[f] for f in case["ofields"]], cnat)
     tf = clist([fid[f] for f in case["tfields"]], cnat)
     ms = clist(case["metrics"], c_metric)
-    m = f"(measure {of} {tf} {ms} {c_coll(case['outputs'])} {c_coll(case['test'])})"
+    m = f"(measure {of} {tf} {ms} outs {c_coll(case['test'])})"
+    oc = c_coll(case["outputs"])
     if obs["error"]:
-        return f"agree_analysis {TOL} {m} {cnat(obs['error'])} [] [] []"
-    t1 = f"agree_analysis {TOL} {m} 0%nat {c_tbl(obs['raw'])} {c_tbl(obs['filled'])} {clist(obs['globals'], lambda v: copt(None if v is None else fparse(v), cq))}"
+        return f"(let outs := {oc} in agree_analysis_keyed {TOL} outs {m} {cnat(obs['error'])} [] [] [] [])"
+    if obs.get("filled_index", obs["index"]) != obs["index"] or obs["index_names"] != list(case["ofields"]):
+        return "false"
+    # the frame in frame order with its index: matched key by key inside Coq (Model: agree_keyed)
+    t1 = (f"(let outs := {oc} in agree_analysis_keyed {TOL} outs {m} 0%nat {clist(obs['index'], lambda k: clist(k, cz))} "
+          f"{c_tbl(obs['raw'])} {c_tbl(obs['filled'])} {clist(obs['globals'], lambda v: copt(None if v is None else fparse(v), cq))})")
     ncol = len(obs["columns"])
     cols = [[r[k] for r in obs["filled"]] for k in range(ncol)]
     order = {"mean": 0, "median": 1, "std": 2}
@@ -331,7 +392,7 @@ def coq_term(case, obs):
     if obs["summary_cols"] != ["mean", "median", "std"] or obs["summary_index"] != obs["columns"]:
         return "false"
     t2 = f"agree_summary {TOL} {c_tbl(cols)} {c_tbl(obs['summary'])}"
-    return f"({t1}) && ({t2})"
+    return f"{t1} && ({t2})"
 
 
 # ---------------------------------------------------------------------------------------------
@@ -399,32 +460,42 @@ def oracle(case, obs):
     if not obs.get("second_measure_equal", True):
         v.append(("second-measure-differs", "measuring the same collections a second time gave a different per-list table or different run-level values"))
     tm = [m for m in case["metrics"] if m["kind"] != "global"]
+    # the frame is read KEY BY KEY: row r below is the row reported under the key of output list r
+    okeys = [o["key"] for o in case["outputs"]]
+    if obs.get("index_names") != list(of):
+        v.append(("index-names", f"the per-list frame's index is named {obs.get('index_names')}, the output key fields are {of}"))
+    raw = by_output(case, obs["index"], obs["raw"])
+    filled = by_output(case, obs.get("filled_index", obs["index"]), obs["filled"])
+    if raw is None or filled is None:
+        v.append(("index-keys", f"the per-list frame is indexed by {obs['index']}, the output keys are {okeys}"))
+        return v
     for r, (o, tl) in enumerate(zip(case["outputs"], tests)):
+        at = f"output key {dict(zip(of, o['key']))}: "
         for c, m in enumerate(tm):
-            cellv = obs["raw"][r][c]
+            cellv = raw[r][c]
             cell = None if cellv is None else float(fparse(cellv))
             if tl is None:
                 if cell is not None:
-                    v.append((f"value-without-test:{m['kind']}", "a per-list value was reported for an output with no test list"))
+                    v.append((f"value-without-test:{m['kind']}", at + "a per-list value was reported for an output with no test list"))
                 continue
             d = obs["direct"][r][c]
             if m["kind"] in ("rmse", "mae"):
                 want = _defn(m["kind"], _pairs(o, tl))
                 if not _close(cell, want):
-                    v.append((f"list-value:{m['kind']}", f"per-list {m['kind']} {cell} differs from its definition over both-present pairs {want}"))
+                    v.append((f"list-value:{m['kind']}", at + f"per-list {m['kind']} {cell} differs from its definition over both-present pairs {want}"))
                 dv = None if d in (None, "absent") else float(fparse(d))
                 if not _close(cell, dv):
-                    v.append((f"list-vs-measure_list:{m['kind']}", f"table cell {cell} differs from the metric's own measure_list {dv}"))
+                    v.append((f"list-vs-measure_list:{m['kind']}", at + f"table cell {cell} differs from the metric's own measure_list {dv}"))
             elif m["kind"] == "fun":
                 t = {i for i, _ in tl["items"]}
                 want = float(sum(1 for i, _ in o["items"] if i in t))
                 if not _close(cell, want):
-                    v.append(("list-value:fun", f"function metric cell {cell} != {want}"))
+                    v.append(("list-value:fun", at + f"function metric cell {cell} != {want}"))
             elif m["kind"] == "deconly":
                 if cell is not None:
                     v.append(("list-value:deconly", "a decomposed-only metric without per-list value produced a cell"))
             # filled view
-            fv = obs["filled"][r][c]
+            fv = filled[r][c]
             fcell = None if fv is None else float(fparse(fv))
             dflt = m["default"]
             if dflt is None and m["kind"] not in ("rmse", "mae"):
@@ -439,7 +510,7 @@ def oracle(case, obs):
                 dflt = m["default"]
                 if dflt is None and m["kind"] not in ("rmse", "mae"):
                     dflt = "0/1"
-                fv = obs["filled"][r][c]
+                fv = filled[r][c]
                 fcell = None if fv is None else float(fparse(fv))
                 if not _close(fcell, None if dflt is None else float(fparse(dflt))):
                     v.append(("fill", f"row without test data: filled cell {fcell}, default {dflt}"))
@@ -462,6 +533,29 @@ def oracle(case, obs):
         got = [None if x is None else float(fparse(x)) for x in obs["summary"][c]]
         if not all(_close(a, b, max(rel, 1e-7)) for a, b in zip(got, want)):
             v.append(("summary", f"summary {got} != statistics of the filled column {want}"))
+    # summary per value of one key field: the statistics of the filled cells of the lists whose key has that value
+    gb = case.get("group_by")
+    if gb is not None and obs.get("grouped") is not None:
+        if obs.get("grouped_cols") != ["mean", "median", "std"]:
+            v.append(("grouped-summary", f"grouped summary has columns {obs.get('grouped_cols')}"))
+        else:
+            got = {(g, lbl): st for g, lbl, st in obs["grouped"]}
+            gi = of.index(gb)
+            for c, m in enumerate(tm):
+                groups: dict = {}
+                for o, row in zip(case["outputs"], filled):
+                    groups.setdefault(o["key"][gi], []).append(row[c])
+                for gval, cells in sorted(groups.items()):
+                    col = [float(fparse(x)) for x in cells if x is not None]
+                    want = [statistics.fmean(col) if col else None,
+                            statistics.median(col) if col else None,
+                            statistics.stdev(col) if len(col) > 1 else None]
+                    st = got.pop((gval, obs["columns"][c]), None)    # a group with no value at all may be left out
+                    have = [None, None, None] if st is None else [None if x is None else float(fparse(x)) for x in st]
+                    if not all(_close(a, b, max(rel, 1e-7)) for a, b in zip(have, want)):
+                        v.append(("grouped-summary", f"{gb}={gval}, {m['kind']}: summary {have} != statistics of the group's filled cells {want}"))
+            if got:
+                v.append(("grouped-summary", f"grouped summary has rows {sorted(got)} that belong to no output key / metric"))
     # dedupe by key
     seen, out = set(), []
     for k, w in v:
@@ -486,6 +580,25 @@ def counters(case, obs):
     yield "prelude=" + str(obs.get("prelude", "none"))
     yield f"error={obs['error']}"
     yield f"lists={len(case['outputs'])}"
+    yield f"key-fields={len(case['ofields'])}"
+    ks = [tuple(o["key"]) for o in case["outputs"]]
+    if len(ks) > 1:
+        yield "key-order=" + ("sorted" if ks == sorted(ks) else "unsorted")
+    if len(set(ks)) < len(ks):
+        yield "duplicate-output-keys"
+    tmap = {}
+    for o in case["outputs"]:
+        for t in case["test"]:
+            if all(f in case["ofields"] for f in case["tfields"]) and t["key"] == [o["key"][case["ofields"].index(f)] for f in case["tfields"]]:
+                tv = dict((i, x) for i, x in t["items"])
+                if any(x is None and tv.get(i) is None for i, x in o["items"]):
+                    tmap[tuple(o["key"])] = True
+    if tmap:
+        yield "item-missing-on-both-sides"
+        if not obs["error"] and any(m["kind"] in ("rmse", "mae") and m["ms"] == "error" and m["mt"] == "error" for m in case["metrics"]):
+            yield "item-missing-on-both-sides:error/error-measured"
+    if not obs["error"] and obs.get("grouped") is not None:
+        yield "grouped-summary"
     for m in case["metrics"]:
         yield "metric=" + m["kind"]
     if not obs["error"]:
@@ -500,7 +613,14 @@ def sample(case, obs):
     return {"case": case, "observation": {k: obs.get(k) for k in ("error", "columns", "raw", "filled", "globals", "summary")}}
 
 
+_shrunk = 0
+
+
 def shrink(case, fails):
+    global _shrunk
+    _shrunk += 1
+    if _shrunk > 5:          # cap the cost of a run in which many cases fail
+        return case
     c = dict(case)
     c["outputs"] = common.shrink_list(case["outputs"], lambda xs: bool(xs) and fails({**c, "outputs": xs}), 40)
     c["metrics"] = common.shrink_list(case["metrics"], lambda xs: bool(xs) and fails({**c, "metrics": xs}), 20)
